@@ -169,3 +169,21 @@ PROPS["C10"] = dict(
     assumptions=COMMON_ASSUME[:1] + ["assignments that build an internal temporary (initializer list, iterator pair, view/convertible array of other extents) may leave the temporary's default-constructed allocator when propagate_on_container_move_assignment is true; no trait covers these assignments, both outcomes are accepted and the storage must agree with the reported allocator",
                  "allocator-extended move construction with an unequal allocator is excluded and counted (recorded known finding)"],
 )
+
+PROPS["C05"] = dict(
+    targets=[dict(name="C05", src="vp/props/C05.cpp", maxlen=13 + 4*6)],
+    quick=dict(cases=2000, floor=16000),
+    thorough=dict(cases=40000, floor=300000, fuzz=dict(time=360)),
+    level="exploration",
+    level_text=("Generated destination views (C01 generator over mutable roots with known contents; array_ref roots carry ASan-poisoned guard zones) and shape-matched sources built by construction "
+                "in six layouts (plain, transposed, rotated, padded block, strided, array / array<long>); eleven assignment forms (view<-view on lvalue and rvalue destination, <-array, <-convertible "
+                "element type, elements()<-elements(), fill, swap of two views, initializer list, element_moved(), assign(iterator)); the whole root is compared afterwards: exactly the model "
+                "positions of the destination hold the source values in logical order, everything else is untouched, the root was neither rebound nor resized, the source is unchanged (or exactly "
+                "moved-from, observed with an instrumented element). Bounded exploration."),
+    technique="model-based testing: generated destination/source view pairs, whole-buffer before/after oracle from the index-mapping model (rapidcheck + libFuzzer)",
+    rule=("case = element {int (3/4), Tracked} x root kind {array, static_array, array_ref} x D in 1..3 x extents 0..7 + up to 6 view operations (mutable value categories only) + form + source layout; "
+          "non-trivial = destination has >= 2 elements, the form copies from a source, and source or destination is not compact row-major; distinct = hash of decoded case text"),
+    assumptions=COMMON_ASSUME + ["destinations that the generator leaves read-only (e.g. reversed() returns a const view on the pinned tree) are counted and skipped: const-ness is C16's subject",
+                 "zero-element destinations are exercised with fill / elements() only (the equal-extents premise cannot be constructed for collapsed shapes)",
+                 "fill(value) on views of dimensionality >= 2 does not instantiate on the pinned tree and is exercised for 1-D views only"],
+)
